@@ -329,15 +329,25 @@ type Guard struct {
 	If       *ssa.If
 	PassTrue bool // pass edge is Succs[0] (cond true) when set, else Succs[1]
 	Note     string
+	// TailRet: instead of a branch, the guard is a return that hands the checked call's error straight
+	// back (`return f(x)`): at that return, success implies f returned nil. Honoured only by
+	// OnlyThroughPassRet for that very return.
+	TailRet *ssa.Return
 }
 
 func (g Guard) PassEdge() Edge {
+	if g.If == nil {
+		return Edge{}
+	}
 	if g.PassTrue {
 		return Edge{g.If.Block(), 0}
 	}
 	return Edge{g.If.Block(), 1}
 }
 func (g Guard) FailEdge() Edge {
+	if g.If == nil {
+		return Edge{}
+	}
 	if g.PassTrue {
 		return Edge{g.If.Block(), 1}
 	}
@@ -1116,3 +1126,14 @@ func OnlyThroughPassFlag(fn *ssa.Function, target *ssa.BasicBlock, guards []Guar
 
 // Value is a helper to compare an ssa.Value-implementing pointer with interface values.
 func Value(v ssa.Value) ssa.Value { return v }
+
+// OnlyThroughPassRet is OnlyThroughPass for a return: a success at ret implies one of the guards held.
+// A TailRet guard for this very return discharges it (the return yields the checked call's own error).
+func OnlyThroughPassRet(fn *ssa.Function, ret *ssa.Return, guards []Guard) bool {
+	for _, g := range guards {
+		if g.TailRet != nil && g.TailRet == ret {
+			return true
+		}
+	}
+	return OnlyThroughPass(fn, ret.Block(), guards)
+}
